@@ -109,7 +109,7 @@ def generate(seed, tier):
   from vsim.rng import Rng
   r = Rng(seed).sub('c09')
   g = r.sub('cfg')
-  num_rounds = g.weighted([(0, 1), (1, 2), (2, 3), (3, 4), (4, 4), (5, 3), (6, 2), (8, 1)])
+  num_rounds = g.weighted([(0, 1), (1, 2), (2, 3), (3, 4), (4, 4), (5, 3), (6, 2), (8, 1), (11, 1), (12, 1)])
   cfg = {
       'num_rounds': num_rounds,
       'ckpt_freq': g.weighted([(0, 1), (1, 4), (2, 4), (3, 2), (4, 1)]),
